@@ -19,7 +19,7 @@ import (
 
 func main() { vh.Main("C06", runC06) }
 
-// purityStream: the metamorphic "reads are pure" stream with RS / INPUTMODE assignments (finding G06-1).
+// purityStream: the metamorphic "reads are pure" stream with RS / INPUTMODE assignments (G06-1, repaired in 7d0fcb7).
 const purityStream = true
 
 type c06Case struct {
